@@ -149,6 +149,21 @@ ALL = {
              'chain creates one element per level at its defined position and a second identical write adds nothing.',
         note='v2.5; the 6 listed navigation paths.',
         ref='DESIGN.md §3 C11'),
+    'C13': dict(
+        technique='solver-based: hl7apy/utils.py, factories.py and base_datatypes.py re-executed from source on bounded symbolic '
+                  'strings (engine pysym) with a path explorer; z3 decides acceptance-vs-grammar, round trip and TOLERANT '
+                  'preservation per path and length; boundary grid through the unmodified library',
+        engine='pysym-e2 + crosshair-e1',
+        text='Bounded model checking of datatype_factory for DT, TM, DTM, SI, NM: for every string of each length up to 9/17/26/7/18 '
+             'over the alphabet 0-9 . + - blank A _ newline E, every feasible path through the real length dispatch, offset regex, '
+             'precision, offset range, strptime/strftime, int, Decimal is explored; z3 shows STRICT-accepted => HL7 grammar, grammar => '
+             'accepted, accepted => to_er7() == text (canonical numerics), TOLERANT never raises and keeps the text, over-long => '
+             'MaxLengthReached - modulo the recorded library-leniency family. A 126-literal boundary grid runs through the unmodified '
+             'library.',
+        note='strptime/strftime/int/Decimal/re.search are shims fed with CPython\'s own data and validated on every run against the '
+             'real functions (252 cases); spellings CPython accepts outside the fixed-width forms are flagged lenient and not '
+             'modelled in value. Years below 1000, non-ASCII digits, longer strings are outside.',
+        ref='DESIGN.md §3 C13'),
     'C14': dict(
         technique='solver-based: CrossHair/z3 exhaustion of symbolic table-row indices (ALL rows) through the real name / long-name / '
                   'positional lookup for read, write and delete; z3 decision of the long-name domain',
